@@ -2,6 +2,8 @@ import F3.Proofs.InstanceRun
 import F3.Proofs.ParticipantRun
 import F3.Proofs.InstanceGen
 import F3.Proofs.MultiParticipantEx
+import F3.Proofs.NoFailureRun
+import F3.Proofs.NoFailureParticipant
 /-!
 # C07 — protocol discipline of an honest participant (Layer B, on the executable model of `gpbft.go`)
 
@@ -12,6 +14,9 @@ real `gpbft.Participant` on every check run. Hypotheses: the messages delivered 
 -/
 namespace F3.Props.C07
 open F3.Instance
+-- `F3.Proofs.NoFailureRun` (section `NoFailure` at the end) brings the Layer-B files into scope; their simp lemma of
+-- the same name as the local `addCandidatePrefixes_proposal` below would pre-empt the `rw` in `prepare0_value`
+attribute [-simp] F3.Instance.addCandidatePrefixes_proposal
 
 /-- the slot of a broadcast effect -/
 def slotOf : Eff → Option (Nat × Phase)
@@ -656,5 +661,222 @@ example :
   ⟨ex_restart.1, ex_restart.2.1, by decide +kernel⟩
 
 end ConsecutiveInstances
+
+/-! ## No internal error, no panic
+
+Every `panic(...)` site and every returned error of `gpbft.go` is an explicit effect of the model (`Eff.panic site`,
+`Eff.err kind`). All theorems above take "no failure was reported" as a hypothesis; here it is proved: on validated
+inputs the only failures the instance ever reports are the four refusals at the door. -/
+section NoFailure
+
+/-- **No internal error or panic.** For every configuration, every power table with positive total power, every
+non-empty input chain, every set `W` of existing votes and every sequence of API calls that begins with the one
+`Start` (`beginInstance`) and continues with alarms and deliveries — at any times, in any order, duplicates and
+equivocations included — each delivered message being either for another instance / supplemental data (`foreignOp`)
+or a validated one (`OpValidG W t`, i.e. `MsgValid`: positive sender power, CONVERGE with a non-bottom value, the
+justification that validation demands, DECIDE for round 0 …):
+
+* every call either is refused at the door, leaving the state untouched (`refusedOp`, `step_refusedOp`), or reports
+  no failure at all (`okRunI`, the core-only twin of `F3.Bridge.okRun`);
+* no effect of the run is a `panic` — none of `duplicateMessage`, `nilJustification`, `signerNotInTable`,
+  `invalidSignerIndex`, `quorumNotFound`, `multipleStrongQuorums`, `convergeJustRound`, `commitNoQuorum`,
+  `decideNoQuorum`, `tryDecideNoQuorum`, `nextRoundNoJust` is reachable;
+* every reported error is one of `afterTermination`, `wrongInstance`, `wrongSupp`, `wrongBase`, which a validated
+  (Byzantine or late) message can legitimately trigger — never `convergeBottom`, `convergeNilJust`,
+  `unexpectedPhase`, `noValuesAtConverge`, `cannotTransition`.
+
+Neither distinctness of the table's ids nor any relation between `W` and the participant's own broadcasts is
+needed: validity is monotone in `W`, and the structural part of the Layer-B invariant suffices. -/
+theorem no_internal_error_or_panic (cfg : Cfg) (t : Table) (input : Chain) (W : Votes) (now0 : Int) (ops : List Op)
+    (hin : input ≠ []) (hT : 0 < t.total)
+    (hstart : ∀ op ∈ ops, op.isStart = false)
+    (hvalid : ∀ op ∈ ops, foreignOp op = true ∨ OpValidG W t op) :
+    okRunI (init cfg t input) (.start now0 :: ops) = true ∧
+    ∀ e ∈ (run (init cfg t input) (.start now0 :: ops)).2,
+      (∀ p, e ≠ Eff.panic p) ∧
+      (∀ k, e = Eff.err k → k = .afterTermination ∨ k = .wrongInstance ∨ k = .wrongSupp ∨ k = .wrongBase) := by
+  have hok := run_nf cfg t input W now0 ops hin hT (fun op hop => ⟨hstart op hop, hvalid op hop⟩)
+  exact ⟨hok, okRunI_effects _ _ hok⟩
+
+/-- the same for a run that is not interrupted by refusals: over validated messages of this instance, with its
+supplemental data and base, delivered before termination, the run reports no failure whatsoever -/
+theorem no_failure_without_refusals (cfg : Cfg) (t : Table) (input : Chain) (W : Votes) (now0 : Int) (ops : List Op)
+    (hin : input ≠ []) (hT : 0 < t.total)
+    (hstart : ∀ op ∈ ops, op.isStart = false)
+    (hvalid : ∀ op ∈ ops, foreignOp op = true ∨ OpValidG W t op)
+    (hnoref : ∀ e ∈ (run (init cfg t input) (.start now0 :: ops)).2, ∀ k, e = Eff.err k →
+      k ≠ .afterTermination ∧ k ≠ .wrongInstance ∧ k ≠ .wrongSupp ∧ k ≠ .wrongBase) :
+    hasFailure (run (init cfg t input) (.start now0 :: ops)).2 = false := by
+  have h := (no_internal_error_or_panic cfg t input W now0 ops hin hT hstart hvalid).2
+  unfold hasFailure
+  rw [List.any_eq_false]
+  intro e he
+  cases e with
+  | err k =>
+    exfalso
+    obtain ⟨h1, h2, h3, h4⟩ := hnoref _ he k rfl
+    rcases (h _ he).2 k rfl with h' | h' | h' | h'
+    · exact h1 h'
+    · exact h2 h'
+    · exact h3 h'
+    · exact h4 h'
+  | panic p => exact absurd rfl ((h _ he).1 p)
+  | _ => simp
+
+/-- the failure-free run behind a validated run (refused deliveries dropped) -/
+theorem validated_run_clean (cfg : Cfg) (t : Table) (input : Chain) (W : Votes) (now0 : Int) (ops : List Op)
+    (hin : input ≠ []) (hT : 0 < t.total)
+    (hstart : ∀ op ∈ ops, op.isStart = false)
+    (hvalid : ∀ op ∈ ops, foreignOp op = true ∨ OpValidG W t op) :
+    ∃ ops', (∀ op ∈ ops', OpOk op) ∧ hasFailure (run (init cfg t input) ops').2 = false ∧
+      (run (init cfg t input) ops').1 = (run (init cfg t input) (.start now0 :: ops)).1 ∧
+      (run (init cfg t input) ops').2 = (run (init cfg t input) (.start now0 :: ops)).2.filter nonErr := by
+  have hok := (no_internal_error_or_panic cfg t input W now0 ops hin hT hstart hvalid).1
+  obtain ⟨ops', h1, h2, h3, h4⟩ := clean_runI (OpValidG W t) _ _ hok (by
+    intro op hop
+    rcases List.mem_cons.1 hop with rfl | hop
+    · exact Or.inr trivial
+    · exact hvalid op hop)
+  refine ⟨ops', ?_, h2, h3, h4⟩
+  intro op hop
+  have := h1 op hop
+  cases op with
+  | recv now m => exact MsgValid.msgOk (W := W) this
+  | start _ => trivial
+  | alarm _ => trivial
+
+/-- **At most one message per instance, round and step — no failure hypothesis.** `emit_once` for every run of one
+`Start` followed by alarms and validated (or foreign) deliveries. -/
+theorem emit_once_unconditional (cfg : Cfg) (t : Table) (input : Chain) (W : Votes) (now0 : Int) (ops : List Op)
+    (hin : input ≠ []) (hT : 0 < t.total)
+    (hstart : ∀ op ∈ ops, op.isStart = false)
+    (hvalid : ∀ op ∈ ops, foreignOp op = true ∨ OpValidG W t op) :
+    ((run (init cfg t input) (.start now0 :: ops)).2.filterMap slotOf).Nodup := by
+  obtain ⟨ops', h1, h2, _, h4⟩ := validated_run_clean cfg t input W now0 ops hin hT hstart hvalid
+  have := emit_once cfg t input ops' h1 h2
+  rwa [h4, filterMap_filter_nonErr slotOf (fun _ => rfl)] at this
+
+/-- **Progress never moves backwards — no failure hypothesis.** -/
+theorem progress_monotone_unconditional (cfg : Cfg) (t : Table) (input : Chain) (W : Votes) (now0 : Int)
+    (ops : List Op) (hin : input ≠ []) (hT : 0 < t.total)
+    (hstart : ∀ op ∈ ops, op.isStart = false)
+    (hvalid : ∀ op ∈ ops, foreignOp op = true ∨ OpValidG W t op) :
+    ((run (init cfg t input) (.start now0 :: ops)).2.filterMap progOf).Pairwise ptLt ∧
+    ptLe (0, 0) (run (init cfg t input) (.start now0 :: ops)).1.pt := by
+  obtain ⟨ops', h1, h2, h3, h4⟩ := validated_run_clean cfg t input W now0 ops hin hT hstart hvalid
+  have := progress_monotone cfg t input ops' h1 h2
+  rwa [h3, h4, filterMap_filter_nonErr progOf (fun _ => rfl)] at this
+
+/-! ### Non-vacuity: the run `exOps` above with three more deliveries — a validated QUALITY vote on another base
+(refused: `wrongBase`), a message of another instance (refused: `wrongInstance`) and a validated COMMIT for bottom —
+meets every hypothesis; it reports exactly the two refusals and broadcasts QUALITY, PREPARE, COMMIT -/
+
+def exNFOps : List Op :=
+  [.recv 1 { sender := 1, round := 0, phase := .quality, value := [7, 8] },
+   .recv 2 { sender := 3, round := 0, phase := .quality, value := [9, 9] },                  -- other base: refused
+   .recv 2 { sender := 2, round := 0, phase := .quality, value := [7, 8] },
+   .recv 3 { sender := 1, round := 0, phase := .prepare, value := [7, 8] },
+   .recv 4 { sender := 2, round := 0, phase := .prepare, value := [7, 8], instOk := false },  -- other instance: refused
+   .recv 4 { sender := 2, round := 0, phase := .prepare, value := [7, 8] },
+   .recv 5 { sender := 3, round := 0, phase := .prepare, value := [7, 9] },
+   .recv 6 { sender := 3, round := 0, phase := .prepare, value := [7, 8] },                  -- equivocation: ignored
+   .alarm 500,
+   .recv 501 { sender := 3, round := 0, phase := .commit, value := [] }]
+
+example : ([7, 8] : Chain) ≠ [] ∧ 0 < exTbl.total ∧ (∀ op ∈ exNFOps, op.isStart = false) ∧
+    (∀ op ∈ exNFOps, foreignOp op = true ∨ OpValidG WT exTbl op) ∧
+    (run (init exCfg exTbl [7, 8]) (.start 0 :: exNFOps)).2.filter (fun e => !nonErr e) =
+      [.err .wrongBase, .err .wrongInstance] ∧
+    (run (init exCfg exTbl [7, 8]) (.start 0 :: exNFOps)).2.filterMap slotOf =
+      [(0, .quality), (0, .prepare), (0, .commit)] := by
+  refine ⟨by decide, by decide, ?_, ?_, by decide, by decide⟩
+  · intro op hop
+    simp only [exNFOps, List.mem_cons, List.mem_nil_iff, or_false] at hop
+    rcases hop with rfl | rfl | rfl | rfl | rfl | rfl | rfl | rfl | rfl | rfl <;> rfl
+  · intro op hop
+    simp only [exNFOps, List.mem_cons, List.mem_nil_iff, or_false] at hop
+    rcases hop with rfl | rfl | rfl | rfl | rfl | rfl | rfl | rfl | rfl | rfl <;>
+      simp [foreignOp, foreignM, OpValidG, MsgValid, exTbl, Table.power]
+
+/-! ### None of the hypotheses is idle
+
+* total power zero (an empty committee passes `PowerTable.Validate`): three alarms take the instance through QUALITY,
+  PREPARE and COMMIT with everything "strong", and `beginNextRound` panics — "beginConverge called but no
+  justification for proposal", `gpbft.go:728`;
+* an alarm before `Start`: `unexpectedPhase` ("unexpected phase INITIAL"); a second `Start`: `cannotTransition`;
+* messages that validation would reject: a COMMIT for a value without justification panics ("nil justification",
+  `gpbft.go:1116`), a CONVERGE for bottom is reported as `convergeBottom`. -/
+
+example : (run (init exCfg { entries := [] } [7, 8]) [.start 0, .alarm 200, .alarm 400, .alarm 600]).2.filterMap
+      (fun e => match e with | .panic p => some p | _ => none) = [.nextRoundNoJust] ∧
+    (run (init exCfg exTbl [7, 8]) [.alarm 0]).2 = [.err .unexpectedPhase] ∧
+    (run (init exCfg exTbl [7, 8]) [.start 0, .start 1]).2.filter (fun e => !nonErr e) = [.err .cannotTransition] ∧
+    (run (init exCfg exTbl [7, 8])
+      [.start 0, .recv 1 { sender := 1, round := 0, phase := .commit, value := [7, 8] }]).2.filterMap
+      (fun e => match e with | .panic p => some p | _ => none) = [.nilJustification] ∧
+    (run (init exCfg exTbl [7, 8])
+      [.start 0, .recv 1 { sender := 1, round := 1, phase := .converge, value := [] }]).2.filter
+      (fun e => !nonErr e) = [.err .convergeBottom] := by
+  decide
+
+/-! ### The participant API -/
+
+/-- **No internal error or panic at the participant API.** For every configuration, power table with positive total,
+non-empty input, drain order and every sequence of `ReceiveMessage` / `ReceiveAlarm` calls — messages arriving before
+the instance has begun are queued and drained through `instance.ReceiveMany` at the first alarm — in which every
+delivered message is of this instance (the Go participant keeps one queue per instance) and is a validated one unless
+its supplemental data are not the instance's (`PMsgOK`): every call either is a refusal at the door by the running
+instance or reports no failure (`okRunP`, so far the hypothesis `HonestRunP.ok`); no effect is a `panic`, and every
+reported error is one of the four refusals. In particular the drain never aborts. -/
+theorem no_internal_error_or_panic_participant (cfg : Cfg) (t : Table) (input : Chain) (W : Votes) (order : List Pid)
+    (ops : List POp) (hin : input ≠ []) (hT : 0 < t.total)
+    (hvalid : ∀ op ∈ ops, POpP (PMsgOK W t) op) :
+    okRunP order (pinit cfg t input) ops = true ∧
+    ∀ e ∈ (prun order (pinit cfg t input) ops).2,
+      (∀ p, e ≠ Eff.panic p) ∧
+      (∀ k, e = Eff.err k → k = .afterTermination ∨ k = .wrongInstance ∨ k = .wrongSupp ∨ k = .wrongBase) := by
+  have hok := prun_ok cfg t input W order ops hin hT hvalid
+  exact ⟨hok, okRunP_effects order _ ops hok⟩
+
+/-- **At most one message per instance, round and step, at the participant API — no failure hypothesis.** -/
+theorem emit_once_participant_unconditional (cfg : Cfg) (t : Table) (input : Chain) (W : Votes) (order : List Pid)
+    (ops : List POp) (hin : input ≠ []) (hT : 0 < t.total)
+    (hvalid : ∀ op ∈ ops, POpP (PMsgOK W t) op) :
+    ((prun order (pinit cfg t input) ops).2.filterMap slotOf).Nodup := by
+  have hok := prun_ok cfg t input W order ops hin hT hvalid
+  have h := (prun_wp_ok order (pinit cfg t input) ops (DQ_pinit cfg t input) (by simp [pinit])
+    (fun op hop => (hvalid op hop).foreign_or_ok) hok).1
+  have hn := h.bc_nodup
+  rw [evs_bc] at hn
+  exact (List.pairwise_map.1 hn).imp (fun h heq => h (by rw [heq]))
+
+/-- **Progress never moves backwards, at the participant API — no failure hypothesis.** -/
+theorem progress_monotone_participant_unconditional (cfg : Cfg) (t : Table) (input : Chain) (W : Votes)
+    (order : List Pid) (ops : List POp) (hin : input ≠ []) (hT : 0 < t.total)
+    (hvalid : ∀ op ∈ ops, POpP (PMsgOK W t) op) :
+    ((prun order (pinit cfg t input) ops).2.filterMap progOf).Pairwise ptLt ∧
+    ptLe (0, 0) (prun order (pinit cfg t input) ops).1.inst.pt := by
+  have hok := prun_ok cfg t input W order ops hin hT hvalid
+  have h := (prun_wp_ok order (pinit cfg t input) ops (DQ_pinit cfg t input) (by simp [pinit])
+    (fun op hop => (hvalid op hop).foreign_or_ok) hok).1
+  have hs := h.prog_sorted
+  rw [evs_prog] at hs
+  exact ⟨hs.1, h.le⟩
+
+/-- Non-vacuity: `exPOps` above (three messages queued before the instance begins, one of them a late-binding reject
+dropped by the drain) with a delivery on another base to the running instance (refused: `wrongBase`) -/
+example : ([7, 8] : Chain) ≠ [] ∧ 0 < exTbl.total ∧
+    (∀ op ∈ exPOps ++ [.recv 600 { sender := 3, round := 0, phase := .quality, value := [9, 9] }],
+      POpP (PMsgOK WT exTbl) op) ∧
+    (prun [3, 1] (pinit exCfg exTbl [7, 8])
+      (exPOps ++ [.recv 600 { sender := 3, round := 0, phase := .quality, value := [9, 9] }])).2.filter
+        (fun e => !nonErr e) = [.err .wrongBase] := by
+  refine ⟨by decide, by decide, ?_, by decide⟩
+  intro op hop
+  simp only [exPOps, List.cons_append, List.nil_append, List.mem_cons, List.mem_nil_iff, or_false] at hop
+  rcases hop with rfl | rfl | rfl | rfl | rfl | rfl | rfl | rfl | rfl <;>
+    simp [POpP, PMsgOK, MsgValid, exTbl, Table.power]
+
+end NoFailure
 
 end F3.Props.C07
